@@ -541,9 +541,13 @@ fn read_or_fallback<S: StateRead>(
     mut key: Key,
     num_values: usize,
 ) -> Result<Vec<Vec<Word>>, S::Error> {
-    let mut out = Vec::with_capacity(num_values);
+    let mut out = Vec::new();
     match post.state.get(&contract_addr) {
         Some(contract_state) => {
+            // The count comes from the program. No more than this many values can ever fit
+            // into VM memory (each takes at least an [address, length] pair), so a larger
+            // request fails in the VM whatever is returned: do not loop (or allocate) for it.
+            let num_values = num_values.min(Memory::SIZE_LIMIT);
             for _ in 0..num_values {
                 match contract_state.get(&key) {
                     Some(value) => out.push(value.clone()),
